@@ -9,10 +9,9 @@ CONSTANTS
   NTr = 1
   AsIs_D1 = FALSE
   AsIs_D4 = FALSE
-  AsIs_D17 = FALSE
-  AsIs_D7 = TRUE
-  Scenarios = {1, 2, 3, 4}
+  AsIs_D17 = TRUE
+  AsIs_D7 = FALSE
+  Scenarios = {5}
   GenLen = 2
 INVARIANT Linearizable
-INVARIANT LockDiscipline
 CHECK_DEADLOCK FALSE
